@@ -144,6 +144,10 @@ func eVariants(e *Expr) []*Expr {
 func shrink(cs *Case, verdict string) *Case {
 	cur := cloneCase(cs)
 	budget := 300
+	origTriggers := map[string]bool{}
+	for _, t := range triggers(cs) {
+		origTriggers[t] = true
+	}
 	still := func(c *Case) (ok bool) {
 		budget--
 		defer func() {
@@ -154,6 +158,13 @@ func shrink(cs *Case, verdict string) *Case {
 		if checkCase(c) != nil {
 			budget++
 			return false
+		}
+		// shrinking must not slide into the shape of a known finding that the original case does not have
+		for _, t := range triggers(c) {
+			if !origTriggers[t] {
+				budget++
+				return false
+			}
 		}
 		o := evaluate(c)
 		return o.verdict(c.Ordered) == verdict
